@@ -270,7 +270,13 @@ def lp_audit(events: Iterable[Event], limit: int = 40) -> Optional[str]:
                 rows += [{"c": {"q%d" % j: -1.0}, "k": 0.0} for j in range(A.shape[1])]
             elif bnd != [None, None]:
                 continue  # other bounds are not modelled: no verdict on this LP
-            kind, val = X.lp_opt(rows, {"q%d" % j: float(-c[j]) for j in range(len(c)) if c[j] != 0}, True)
+            obj = {"q%d" % j: float(-c[j]) for j in range(len(c)) if c[j] != 0}
+            kind, val = X.lp_opt(rows, obj, True)
+            if kind == "infeasible":
+                # infeasible by round-off only (pacti's own b+1-1 moves constants by an ulp, which can make an
+                # equality written as two inequalities cross by 1e-16): judge the LP relaxed by 1e-9 relative
+                relaxed = [{"c": r["c"], "k": r["k"] + 1e-9 * (1 + abs(r["k"]))} for r in rows]
+                kind, val = X.lp_opt(relaxed, obj, True)
         except Exception:  # noqa: BLE001
             continue
         if kind != "opt":
